@@ -14,7 +14,7 @@ import vf, _fileaccess as F
 NAMES_Q = [["d"], ["d", "x"], ["d", "x", "x"], ["x"], ["x", "s"], [".."]]
 NAMES_T = NAMES_Q + [["..", "s"], ["d", "x", "y"], ["d", "x", "y", "s"], ["."]]
 NAMES_S = [["d", "x"], ["d", "x", "x"], ["x", "s"]]     # smallest alphabet containing the escape
-TARGETS_Q = [["rel", ".."], ["rel", "..", ".."], ["rel", "..", "..", "s"], ["abs", "s"]]
+TARGETS_Q = [["rel", ".."], ["rel", "..", ".."], ["rel", "..", "..", "s"], ["abs", "s"], ["rel", "..", "ox"]]
 TARGETS_T = TARGETS_Q + [["rel", "d"]]
 
 
@@ -40,9 +40,9 @@ def run(ctx):
     # 2. sensitivity + the pinned extractors' relations: each deviation is explored by TLC (edges carry TLC's verdict
     #    on NoEscape for the post-state); it must let some archive escape, else the model is vacuous
     caught, devgraph, devesc = {}, {}, {}
-    for d in ("DevLexicalOnly", "DevNoLinkChecks"):
+    for d in ("DevLexicalOnly", "DevNoLinkChecks", "DevPrefixNoSeparator", "DevChmodDir"):
         dr = F.x_run(ctx, NAMES_Q, TARGETS_Q, maxe, dev=(d,), emit=True, invs=False, tag="MCXd",
-                     kinds=("dir", "file", "sym") if d == "DevNoLinkChecks" else ("dir", "file", "sym", "hard"))
+                     kinds=("dir", "dirc", "file", "sym") if d == "DevNoLinkChecks" else ("dir", "dirc", "file", "sym", "hard"))
         devesc[d] = [e["arch"] for e in dr.edges if e.get("esc")]
         if not devesc[d]:
             raise vf.Infra("%s lets nothing escape in the bounded model (vacuous model)" % d)
@@ -82,22 +82,32 @@ def run(ctx):
             for k in tot:
                 tot[k] += summ[k]
             sample = sample or summ.get("sample")
-            # what does the site's deviation predict for the archives that escaped on the real code?  (followed in the
-            # deviation's relation; archives outside it, e.g. longer ones, are put to TLC directly)
-            devmap = {}
+            # which transcribed deviation predicts exactly what the real code did with an escaping archive?  (the
+            # site's own pinned behaviour first; followed in the deviations' relations, archives outside them - e.g.
+            # longer ones - are put to TLC directly)
+            order = [devname] + [d for d in devgraph if d != devname]
             rest = []
-            for e in escapes:
-                pr = devgraph[devname].predict(e["arch"])
-                if pr is None:
-                    rest.append(e["arch"])
-                else:
-                    devmap[F.arch_key(e["arch"])] = {"st": pr[0], "t": pr[1]}
+            for esc in escapes:
+                dev, covered = None, False
+                for d in order:
+                    pr = devgraph[d].predict(esc["arch"])
+                    if pr is None:
+                        continue
+                    covered = True
+                    if pr[0] == esc["real_st"] and F.same_snap(esc["real"], F.snap_of_nodes(pr[1])):
+                        dev = d
+                        break
+                esc["_dev"] = dev
+                if not covered:
+                    rest.append(esc)
             if rest:
                 dr = F.x_run(ctx, NAMES_T, TARGETS_T, 6, dev=(devname,), emit=True, invs=False, tag="MCXrel",
-                             only=rest[:300])
-                devmap.update({F.arch_key(e["arch"]): e for e in dr.edges})
+                             only=[e["arch"] for e in rest][:300])
+                devmap = {F.arch_key(e["arch"]): e for e in dr.edges}
+                for esc in rest:
+                    esc["_dev"] = classify(esc, devmap, devname)
             for esc in escapes:
-                dev = classify(esc, devmap, devname)
+                dev = esc.pop("_dev")
                 kinds = "+".join(sorted(set(e["kind"] for e in esc["arch"])))
                 key = "FileAccess:%s:%s" % (dev or "unexplained:" + kinds, site)
                 ctx.finding(key, "%s (%s archive) changed %s outside the destination while extracting [%s]" % (
